@@ -37,8 +37,11 @@ class Snap:
 
     @staticmethod
     def renderings(v):
-        return [v.to_str(optimize=a, reset_start=b, reset_end=c) for a in (True, False) for b in (False, True)
-                for c in (True, False)]
+        try:
+            return [v.to_str(optimize=a, reset_start=b, reset_end=c) for a in (True, False) for b in (False, True)
+                    for c in (True, False)]
+        except Exception as e:
+            raise O.ObsError(e)
 
     def diff(self, L):
         v = self.v
